@@ -128,6 +128,7 @@ func (p *Prog) indexPkg(pkg *packages.Package) {
 			if fd.Name.Name == "init" || fd.Name.Name == "_" {
 				f.ID = fmt.Sprintf("%s@%s", f.ID, filepath.Base(p.position(pkg, fd.Pos()).Filename))
 			}
+			normalizeNames(f.ID, pkg.TypesInfo, fd)
 			p.funcs[f.ID] = f
 			p.byObj[obj] = f
 			p.all = append(p.all, f)
